@@ -1,4 +1,5 @@
 import RepeVerif.Model.Fleet
+import RepeVerif.Gen.Fleet
 /-! Helper lemmas about the retry loop `Repe.Fleet.run` (C19). -/
 namespace Repe.Fleet
 
@@ -201,5 +202,20 @@ theorem step_dead (bs : List Behaviour) :
     (step .dead bs).entry = ⟨none, .err deadClientError⟩ ∧ (step .dead bs).cache = .dead ∧
       (step .dead bs).rest = bs := by
   simp [step]
+
+/-! ### what the property theorems quantify over -/
+
+/-- The two extracted tables (`Fleet`, `AsyncFleet`). -/
+def policies : List Policy := [Gen.Fleet.policy, Gen.Fleet.asyncPolicy]
+
+/-- The four extracted loops (blocking json/message, async json/message). -/
+def loops : List LoopForm :=
+  [Gen.Fleet.loopJson, Gen.Fleet.loopMessage, Gen.Fleet.asyncLoopJson, Gen.Fleet.asyncLoopMessage]
+
+/-- The cache left behind by an arbitrary history of calls (each with its own `max_attempts` and its
+own list of node behaviours). -/
+def cacheAfter (P : Policy) (lf : LoopForm) : Cache → List (Nat × List Behaviour) → Cache
+  | c, [] => c
+  | c, (max, bs) :: h => cacheAfter P lf (call P lf max c bs).cache h
 
 end Repe.Fleet
